@@ -167,6 +167,45 @@ def check(run):
         os.chdir(cwd)
         import shutil
         shutil.rmtree(d, ignore_errors=True)
+    # make_readable_bulk(save_report=True) over lists that mix readable, fixable and unparseable entries, the hostile text
+    # sitting in entries the parser rejects as well as in ones it accepts (it ignores what follows 'rgb(...)'): the report
+    # must have the structure of the same run with each hostile string replaced by a harmless one of the same validity
+    import io, contextlib, shutil
+    from cm_colors import make_readable_bulk, Color
+
+    def bulk_doc(pairs):
+        d = tempfile.mkdtemp(prefix="cmv_c19_")
+        cwd = os.getcwd(); os.chdir(d)
+        try:
+            with contextlib.redirect_stdout(io.StringIO()):
+                make_readable_bulk(pairs, save_report=True)
+            pth = os.path.join(d, "cm_colors_bulk_report.html")
+            return open(pth, encoding="utf-8").read() if os.path.exists(pth) else None
+        finally:
+            os.chdir(cwd)
+            shutil.rmtree(d, ignore_errors=True)
+
+    def harmless(v):
+        c = Color(v)
+        return "rgb(%d, %d, %d)" % c.rgb if c.is_valid else "notacolour"
+
+    for _ in range(40 if q else 1500):
+        pairs, calm = [("#777777", "#ffffff")], [("#777777", "#ffffff")]
+        for _k in range(run.rng.randrange(1, 5)):
+            h = hostile(run.rng)
+            v = run.rng.choice([h, "rgb(119, 119, 119)" + h, "#777" + h, "notacolour" + h])
+            as_bg = run.rng.random() < 0.3
+            pairs.append(("#767676", v) if as_bg else (v, "#ffffff"))
+            calm.append(("#767676", harmless(v)) if as_bg else (harmless(v), "#ffffff"))
+        doc, ref = bulk_doc(pairs), bulk_doc(calm)
+        run.count(("e2e-bulk", json.dumps(pairs)))
+        run.hit("e2e.bulk_hostile")
+        case = {"flow": "make_readable_bulk(pairs, save_report=True)", "pairs": pairs}
+        if (doc is None) != (ref is None):
+            run.violation("hostile text decides whether a bulk report is written", case, details={})
+        elif doc is not None and tree_of(doc).structure != tree_of(ref).structure:
+            extra = [x for x in tree_of(doc).structure if x not in tree_of(ref).structure][:4]
+            run.violation("text of a bulk entry changes the element/attribute structure of the bulk report", case, details={"extra_or_changed": repr(extra)})
     run.sample({"generator": "generate_report", "values": {"selector": "\"><script>alert(1)</script>"}, "structure_equal_to_benign": True})
     run.assumptions = ["escaping is per character and context-free (checked here by random strings in every slot)",
                        "the coarse tokenizer model (data / tag / double- and single-quoted attribute value) is validated against html.parser on every rendered document"]
@@ -176,6 +215,19 @@ def replay(run, path):
     d = json.load(open(path))
     v = d.get("first")
     print(json.dumps(v or d.get("no_longer_checks"), default=repr)[:2500])
+    if v and "pairs" in v.get("case", {}):
+        repo_import()
+        import io, contextlib, shutil
+        from cm_colors import make_readable_bulk
+        d = tempfile.mkdtemp(prefix="cmv_c19_"); cwd = os.getcwd(); os.chdir(d)
+        try:
+            with contextlib.redirect_stdout(io.StringIO()):
+                make_readable_bulk([tuple(x) for x in v["case"]["pairs"]], save_report=True)
+            tags = sorted({x[1] for x in tree_of(open("cm_colors_bulk_report.html", encoding="utf-8").read()).structure if x[0] == "<"})
+        finally:
+            os.chdir(cwd); shutil.rmtree(d, ignore_errors=True)
+        print("tags in the bulk report:", tags)
+        return 1 if set(tags) - {"html", "head", "meta", "title", "style", "body", "div", "span", "h1", "h2", "h3", "p", "code", "strong", "br", "link", "a", "small", "b"} else 0
     if not v or "generator" not in v.get("case", {}):
         return 1
     repo_import()
